@@ -74,7 +74,20 @@ def line_case(draw):
                 args[k] = draw(tag_value)
     for k in field_keys:
         args[k] = draw(field_value)
+    earlier = []
+    for _ in range(draw(st.sampled_from([0, 0, 1, 2]))):
+        a = {}
+        for k in tag_keys:
+            if draw(st.booleans()):
+                a[k] = draw(tag_value)
+        for k in field_keys:
+            if draw(st.booleans()):
+                a[k] = draw(field_value)
+        if not any(k in a for k in field_keys):
+            a[field_keys[0]] = draw(field_value)
+        earlier.append(a)
     return {
+        "earlier": earlier,
         "name": draw(name()),
         "kind": kind,
         "tag_keys": tag_keys,
@@ -111,22 +124,43 @@ def run_line(spec) -> Result:
         tags = dict(spec["defaults"])
     try:
         fmt = LineProtocolFormatter(tags=tags, resolution=spec["res"])
-        out = fmt.format(make_record(spec["name"], dict(spec["args"]), spec["created"]))
     except Exception as e:
         res.fail("format-raises", f"{type(e).__name__}: {e} for {spec}")
         return res
+    # one formatter instance serves many records: earlier records must not influence later ones
+    for i, args in enumerate(list(spec.get("earlier", [])) + [spec["args"]]):
+        check_record(res, fmt, spec, args, f"record {i}")
+        if res.violations:
+            return res
+    texts = [spec["name"]] + list(spec["args"]) + list(spec["defaults"]) + [v for v in list(spec["args"].values()) + list(spec["defaults"].values()) if isinstance(v, str)]
+    specials = {c for s in texts for c in s if c in SPECIAL or ord(c) > 127}
+    for c in specials:
+        res.cls("special:" + (c if ord(c) < 128 else "non-ascii"))
+    res.cls("tags:" + spec["kind"], "res:" + ("none" if spec["res"] is None else "int"), "records:%d" % (1 + len(spec.get("earlier", []))))
+    for v in spec["args"].values():
+        res.cls("field:" + kind_of(v))
+    res.nontrivial = bool(specials)
+    return res
+
+
+def check_record(res, fmt, spec, args, tag):
+    try:
+        out = fmt.format(make_record(spec["name"], dict(args), spec["created"]))
+    except Exception as e:
+        res.fail("format-raises", f"{tag}: {type(e).__name__}: {e} for {spec}")
+        return
     whitelist = set(spec["tag_keys"])
     want_tags = {k: str(v) for k, v in spec["defaults"].items()}
-    want_tags.update({k: str(v) for k, v in spec["args"].items() if k in whitelist})
-    want_fields = {k: v for k, v in spec["args"].items() if k not in whitelist}
+    want_tags.update({k: str(v) for k, v in args.items() if k in whitelist})
+    want_fields = {k: v for k, v in args.items() if k not in whitelist}
     if not isinstance(out, str) or not out.endswith("\n") or "\n" in out[:-1]:
-        res.fail("not-a-single-line", f"output {out!r}")
-        return res
+        res.fail("not-a-single-line", f"{tag}: output {out!r}")
+        return
     try:
         m, t, f, ts = parse_line(out)
     except LineProtocolError as e:
-        res.fail("unparseable", f"{e}: output {out!r} for {spec}")
-        return res
+        res.fail("unparseable", f"{tag}: {e}: output {out!r} for {spec}")
+        return
     if m != spec["name"]:
         res.fail("measurement", f"decoded measurement {m!r}, reported {spec['name']!r}; output {out!r}")
     if t != want_tags:
@@ -152,15 +186,6 @@ def run_line(spec) -> Result:
         want_ts = int(Fraction(spec["created"]) // spec["res"]) * spec["res"] * 10**9
         if ts != want_ts:
             res.fail("timestamp", f"created={spec['created']!r} resolution={spec['res']}: timestamp {ts}, expected {want_ts}")
-    texts = [spec["name"]] + list(spec["args"]) + list(spec["defaults"]) + [v for v in list(spec["args"].values()) + list(spec["defaults"].values()) if isinstance(v, str)]
-    specials = {c for s in texts for c in s if c in SPECIAL or ord(c) > 127}
-    for c in specials:
-        res.cls("special:" + (c if ord(c) < 128 else "non-ascii"))
-    res.cls("tags:" + spec["kind"], "res:" + ("none" if spec["res"] is None else "int"))
-    for v in want_fields.values():
-        res.cls("field:" + kind_of(v))
-    res.nontrivial = bool(specials)
-    return res
 
 
 # ------------------------------------------------------------------ JSON
@@ -176,6 +201,7 @@ def json_case(draw):
         "datefmt": draw(st.sampled_from([None, None, "", "%Y-%m-%d", "%H:%M:%S", "%Y-%m-%dT%H:%M:%S"])),
         "msg": draw(text(NAME_ALPHA, min_size=0)),
         "data": draw(st.dictionaries(json_key, json_value, max_size=5)),
+        "earlier": draw(st.one_of(st.none(), st.dictionaries(json_key, json_value, max_size=4))),
         "created": draw(st.floats(0, 4e9)),
     }
 
@@ -184,6 +210,8 @@ def run_json(spec) -> Result:
     res = Result()
     try:
         fmt = JsonFormatter(fmt=spec["defaults"], datefmt=spec["datefmt"])
+        if spec.get("earlier") is not None:  # the same formatter instance served another record before
+            fmt.format(make_record("earlier", dict(spec["earlier"]), spec["created"]))
         rec = make_record(spec["msg"], dict(spec["data"]), spec["created"])
         out = fmt.format(rec)
     except Exception as e:
